@@ -426,7 +426,7 @@ pub fn datum(allow_indefinite: bool) -> BoxedStrategy<Datum> {
             let ws = if ws.is_empty() && matches!(sfx.first(), Some(b'E') | Some(b'e')) { B(b" ".to_vec()) } else { ws };
             Datum::Dec { lit, suffix: Some((ws, sfx)) }
         }).boxed()),
-        (3, (prop_oneof![Just(b'H'), Just(b'h'), Just(b'Q'), Just(b'q'), Just(b'B'), Just(b'b')], prop_oneof![any::<u64>(), 0u64..300, Just(u64::MAX)], 0u8..3, any::<bool>()).prop_map(|(radix, value, zeros, lower)| {
+        (3, (prop_oneof![Just(b'H'), Just(b'h'), Just(b'Q'), Just(b'q'), Just(b'B'), Just(b'b')], prop_oneof![any::<u64>(), 0u64..300, Just(u64::MAX)], prop_oneof![12 => 0usize..3, 2 => 3usize..70, 1 => prop::sample::select(vec![190usize, 240, 250, 255, 256, 257, 300, 520])], any::<bool>()).prop_map(|(radix, value, zeros, lower)| {
             let mut digits = match radix.to_ascii_uppercase() {
                 b'H' => format!("{value:X}"),
                 b'Q' => format!("{value:o}"),
@@ -435,8 +435,8 @@ pub fn datum(allow_indefinite: bool) -> BoxedStrategy<Datum> {
             if lower {
                 digits.make_ascii_lowercase();
             }
-            // leading zeros must not push a u64 literal beyond what the lexer's integer reader accepts
-            let digits = format!("{}{digits}", "0".repeat(if value < 1 << 32 { zeros as usize } else { 0 }));
+            // leading zeros do not change the value, whatever their number
+            let digits = format!("{}{digits}", "0".repeat(zeros));
             Datum::NonDec { radix, digits: digits.into(), value }
         }).boxed()),
         (3, (any::<bool>(), prop_oneof![
